@@ -229,7 +229,16 @@ func ruleEncodeTables(p *Prog, r *Report) {
 			}
 		}
 		if !found {
-			r.unk(rule, key+":call", pos, "no reachable call of getHeaderBytes in "+FnName(fn))
+			// the header is requested by a helper: read it off the encoding itself
+			if d, decided, good := headerThroughToBytes(p, f); decided {
+				if good {
+					r.ok(rule, key+":call", pos, d)
+				} else {
+					r.bad(rule, key+":call", pos, d)
+				}
+				continue
+			}
+			r.unk(rule, key+":call", pos, "no reachable call of getHeaderBytes in "+FnName(fn)+", and the header could not be read off the encoding by evaluation")
 		}
 	}
 	r.Floor(rule, 28)
